@@ -317,33 +317,34 @@ func (d verifDirEntry) Info() (fs.FileInfo, error) { return nil, nil }
 // the world
 
 type verifWorld struct {
-	ctx     *rapidContext
-	sup     *verifSupervisor
-	iop     *verifInterop
-	seq     int
-	log     []verifEv
-	appCtx  appctx.ApplicationContext
-	rs      core.RegistrationService
-	render  *rendering.EventRenderingService
-	hNext   http.Handler
-	hResp   http.Handler
-	hErr    http.Handler
-	hInitE  http.Handler
-	hReg    http.Handler
-	hANext  http.Handler
-	hAInitE http.Handler
-	hAExitE http.Handler
-	hRNext  http.Handler
-	hRErr   http.Handler
-	initReq *interop.Init
-	sbInfo  interop.SandboxInfoFromInit
-	reqBuf  *bytes.Buffer
-	lastBody map[string]string
-	rtBodies, rtArns, rtResponses, rtStatuses []string
-	rtPlan    [][]int
-	times     map[int]int64
-	rtStarted int
-	bodies   map[string][]string
+	ctx                                                    *rapidContext
+	sup                                                    *verifSupervisor
+	iop                                                    *verifInterop
+	seq                                                    int
+	log                                                    []verifEv
+	appCtx                                                 appctx.ApplicationContext
+	rs                                                     core.RegistrationService
+	render                                                 *rendering.EventRenderingService
+	hNext                                                  http.Handler
+	hResp                                                  http.Handler
+	hErr                                                   http.Handler
+	hInitE                                                 http.Handler
+	hReg                                                   http.Handler
+	hANext                                                 http.Handler
+	hAInitE                                                http.Handler
+	hAExitE                                                http.Handler
+	hRNext                                                 http.Handler
+	hRErr                                                  http.Handler
+	initReq                                                *interop.Init
+	sbInfo                                                 interop.SandboxInfoFromInit
+	reqBuf                                                 *bytes.Buffer
+	lastBody                                               map[string]string
+	rtBodies, rtArns, rtResponses, rtStatuses, rtDeadlines []string
+	slowInit                                               bool
+	rtPlan                                                 [][]int
+	times                                                  map[int]int64
+	rtStarted                                              int
+	bodies                                                 map[string][]string
 }
 
 // mono: the platform's monotonic clock as metering.Monotime() reports it
@@ -646,7 +647,6 @@ func (w *verifWorld) doReset(reason string, timeoutMs int64) {
 
 var _ = model.AgentEvent{}
 
-
 // ---------------------------------------------------------------------------
 // exported surface for the FULL composition assembled in package rapidcore
 // (real rapidcore.Server + real SandboxContext on top of this world)
@@ -655,19 +655,19 @@ type VerifWorld = verifWorld
 
 // runtime behaviours per dispatched invocation
 const (
-	VbRespond      = iota // post the response, go back to next
-	VbError               // post an error, go back to next
-	VbStall               // receive the invocation and never answer
-	VbExit                // receive the invocation and exit (status 1) without answering
-	VbRespondExit         // post the response, then exit instead of polling again
-	VbStaleThenOK         // post a response for a stale id (must be refused), then the right one
-	VbExitEarly           // exit before the first next
-	VbInitError           // report init/error, then exit
-	VbDoubleRespond       // post the response twice (second must be refused)
-	VbCaseVariantThenOK   // post a response for the id in upper case (must be refused), then the right one
-	VbIllegalThenOK       // make protocol-illegal calls (init/error after next, error for a stale id), then respond
-	VbOversize            // post a response longer than the limit (413), then go on polling
-	VbNextTwice           // poll next a second time before responding (same invocation again), then respond
+	VbRespond           = iota // post the response, go back to next
+	VbError                    // post an error, go back to next
+	VbStall                    // receive the invocation and never answer
+	VbExit                     // receive the invocation and exit (status 1) without answering
+	VbRespondExit              // post the response, then exit instead of polling again
+	VbStaleThenOK              // post a response for a stale id (must be refused), then the right one
+	VbExitEarly                // exit before the first next
+	VbInitError                // report init/error, then exit
+	VbDoubleRespond            // post the response twice (second must be refused)
+	VbCaseVariantThenOK        // post a response for the id in upper case (must be refused), then the right one
+	VbIllegalThenOK            // make protocol-illegal calls (init/error after next, error for a stale id), then respond
+	VbOversize                 // post a response longer than the limit (413), then go on polling
+	VbNextTwice                // poll next a second time before responding (same invocation again), then respond
 )
 
 func VerifNewWorld(iop interop.Server, nExt int, subs []string) *VerifWorld {
@@ -700,7 +700,7 @@ func (w *verifWorld) ShuttingDown() bool { return w.ctx.shutdownContext.shutting
 func (w *verifWorld) StateGetter() interop.InternalStateGetter {
 	return w.rs.GetInternalStateDescriptor(w.appCtx)
 }
-func (w *verifWorld) InitRequest() *interop.Init        { return w.initReq }
+func (w *verifWorld) InitRequest() *interop.Init          { return w.initReq }
 func (w *verifWorld) Count(who, what, arg string) int     { return w.count(who, what, arg) }
 func (w *verifWorld) CountPrefix(who, what, p string) int { return w.countPrefix(who, what, p) }
 func (w *verifWorld) First(who, what, arg string) int     { return w.first(who, what, arg) }
@@ -709,6 +709,8 @@ func (w *verifWorld) Note(who, what, arg string) int      { return w.note(who, w
 func (w *verifWorld) RuntimeBodies() []string             { return w.rtBodies }
 func (w *verifWorld) RuntimeResponses() []string          { return w.rtResponses }
 func (w *verifWorld) Statuses() []string                  { return w.rtStatuses }
+func (w *verifWorld) Deadlines() []string                 { return w.rtDeadlines }
+func (w *verifWorld) SetSlowInit(b bool)                  { w.slowInit = b }
 
 // LastSeq returns the sequence number of the last matching entry (0 = none).
 func (w *verifWorld) LastSeq(who, what, argPrefix string) int {
@@ -742,6 +744,13 @@ func (w *verifWorld) plannedRuntime() func(p *verifProc) {
 			w.sup.exit(p, 1, 0)
 			return
 		}
+		if w.slowInit && k == 0 {
+			// the first runtime's own initialisation takes 50 ms of logical time, and it
+			// takes them when everything else (including a caller that already arrived)
+			// has gone as far as it can
+			verifSettle()
+			verifAdvanceClock(50 * 1000 * 1000)
+		}
 		for i := 0; i < 6; i++ {
 			if p.dead {
 				return
@@ -754,6 +763,7 @@ func (w *verifWorld) plannedRuntime() func(p *verifProc) {
 			w.note(who, "got-invoke", id)
 			w.rtBodies = append(w.rtBodies, string(rec.body))
 			w.rtArns = append(w.rtArns, rec.hdr.Get("Lambda-Runtime-Invoked-Function-Arn"))
+			w.rtDeadlines = append(w.rtDeadlines, rec.hdr.Get("Lambda-Runtime-Deadline-Ms"))
 			b := VbRespond
 			if i < len(plan) {
 				b = plan[i]
@@ -814,7 +824,6 @@ func (w *verifWorld) plannedRuntime() func(p *verifProc) {
 		}
 	}
 }
-
 
 // ---------------------------------------------------------------------------
 // C15: grammar and truthfulness of the platform lifecycle events recorded so far
@@ -900,7 +909,6 @@ func (w *verifWorld) CheckInvokeStarts(ids []string) {
 	}
 }
 
-
 // ---------------------------------------------------------------------------
 // exported Runtime API client for scripted runtimes assembled in package rapidcore
 
@@ -909,8 +917,8 @@ type VerifRuntimeAPI struct {
 	p *verifProc
 }
 
-func (a *VerifRuntimeAPI) Dead() bool   { return a.p.dead }
-func (a *VerifRuntimeAPI) Name() string { return a.p.name }
+func (a *VerifRuntimeAPI) Dead() bool        { return a.p.dead }
+func (a *VerifRuntimeAPI) Name() string      { return a.p.name }
 func (a *VerifRuntimeAPI) Exit(status int32) { a.w.sup.exit(a.p, status, 0) }
 func (a *VerifRuntimeAPI) Next() (int, string, string) {
 	r := a.w.runtimeNext(a.p.name)
@@ -955,7 +963,6 @@ func (w *verifWorld) SetRuntimeScript(script func(k int, api *VerifRuntimeAPI) b
 		planned(p)
 	}
 }
-
 
 // exported Extensions API client for scripted extensions
 type VerifExtAPI struct {
